@@ -511,6 +511,9 @@ def rand_opt(rng):
     return RR([], T_OPT, rng.choice([512, 1232, 4096, 0, 65535]), ttl, ("opt", opts))
 
 
+SPECIAL_V4 = [bytes(x) for x in ([0, 0, 0, 0], [127, 0, 0, 1], [255, 255, 255, 255], [10, 0, 0, 1], [224, 0, 0, 1], [169, 254, 1, 1], [192, 0, 2, 1])]
+
+
 def rand_rr(rng, pool, types=None):
     t = rng.choice(types or [T_A, T_A, T_AAAA, T_NS, T_CNAME, T_PTR, T_MX, T_SOA, T_DNAME, T_TXT, T_DS, 99, 65280])
     name = rand_name(rng, pool)
@@ -518,9 +521,17 @@ def rand_rr(rng, pool, types=None):
     ttl = rng.choice([0, 1, 60, 3600, 0x7FFFFFFF, 0xFFFFFFFF, rng.randint(0, 0xFFFFFFFF)])
     cls = rng.choice([1, 1, 1, 1, 3, 255])
     if t == T_A:
-        rd = ("raw", bytes(rng.randint(0, 255) for _ in range(4)))
+        rd = ("raw", rng.choice(SPECIAL_V4) if rng.random() < 0.2 else bytes(rng.randint(0, 255) for _ in range(4)))
     elif t == T_AAAA:
-        rd = ("raw", bytes(rng.randint(0, 255) for _ in range(16)))
+        # a third of the addresses are of the kinds address libraries treat specially (IPv4-mapped, IPv4-compatible, NAT64,
+        # unspecified, loopback, link-local, multicast): a conversion on the way out must not change the family or the bytes
+        if rng.random() < 0.35:
+            v4 = bytes(rng.randint(0, 255) for _ in range(4))
+            rd = ("raw", rng.choice([b"\0" * 10 + b"\xff\xff" + v4, b"\0" * 12 + v4, b"\0" * 16, b"\0" * 15 + b"\1",
+                                     bytes.fromhex("0064ff9b") + b"\0" * 8 + v4, bytes.fromhex("fe80") + b"\0" * 10 + v4,
+                                     bytes.fromhex("ff02") + b"\0" * 13 + b"\1", b"\0" * 10 + b"\xff\xff" + rng.choice(SPECIAL_V4)]))
+        else:
+            rd = ("raw", bytes(rng.randint(0, 255) for _ in range(16)))
     elif t in NAME_TYPES:
         n2 = rand_name(rng, pool)
         pool.append(n2)
@@ -603,19 +614,27 @@ def jumbo_packet(second_at, big_rdlen=None, second=None):
     """An accepted response larger than 64 KiB: question a/A, a TXT record that runs up to offset `second_at`, then a second
     record (default: an A record whose owner is a pointer to the question). `big_rdlen` fixes the TXT data length instead
     (the second record then follows wherever that ends)."""
-    hdr = struct.pack(">HHHHHH", 0x4a4a, 0x8180, 1, 2, 0, 0) + wire_name([b"a"]) + struct.pack(">HH", 1, 1)
-    start = len(hdr) + 2 + 10
+    hdr0 = wire_name([b"a"]) + struct.pack(">HH", 1, 1)
+    start = 12 + len(hdr0) + 2 + 10
     rdlen = big_rdlen if big_rdlen is not None else second_at - start
+    assert 1 <= rdlen, rdlen
+    pads = []
+    while rdlen > 65535:  # more than one TXT record is needed: full ones first (each takes 12 + 65535 bytes)
+        pads.append(65535)
+        rdlen -= 65535 + 12
     assert 1 <= rdlen <= 65535, rdlen
-    data = bytearray()
-    left = rdlen
-    while left > 0:
-        k = min(255, left - 1)
-        data += bytes([k]) + b"t" * k
-        left -= k + 1
-    rec1 = b"\xc0\x0c" + struct.pack(">HHIH", 16, 1, 9, rdlen) + bytes(data)
+    pads.append(rdlen)
+    recs = b""
+    for rl in pads:
+        data = bytearray()
+        left = rl
+        while left > 0:
+            k = min(255, left - 1)
+            data += bytes([k]) + b"t" * k
+            left -= k + 1
+        recs += b"\xc0\x0c" + struct.pack(">HHIH", 16, 1, 9, rl) + bytes(data)
     rec2 = second if second is not None else b"\xc0\x0c" + struct.pack(">HHIH", 1, 1, 7, 4) + b"\xc0\x00\x02\x01"
-    return hdr + rec1 + rec2
+    return struct.pack(">HHHHHH", 0x4a4a, 0x8180, 1, len(pads) + 1, 0, 0) + hdr0 + recs + rec2
 
 
 def label_at_packets(T):
@@ -830,4 +849,40 @@ def boundary_family(rng):
     for n in range(0, 14):
         out.append(bytes([1] * n))
         out.append((H() + Q)[:n])
+    return out
+
+
+def rdlen_sweep_packets():
+    """A response whose only answer is an SOA (or MX) record, the declared data length running over every value from 0 to the true
+    length + 3 (and 0xffff); the names are long and uncompressed in one series, pointers in the other; the packet always carries the
+    full true data, so the names are readable whatever the declared length says."""
+    out = []
+    q = wire_name([b"a"]) + struct.pack(">HH", 1, 1)
+    long1 = wire_name([b"m" * 9, b"example"])       # 19 bytes
+    long2 = wire_name([b"r" * 5, b"ex"])            # 10 bytes
+    fixed = struct.pack(">IIIII", 1, 2, 3, 4, 5)
+    series = [(6, long1 + long2 + fixed), (6, b"\xc0\x0c" + long2 + fixed), (6, b"\xc0\x0c\xc0\x0c" + fixed),
+              (15, struct.pack(">H", 10) + long1), (15, struct.pack(">H", 10) + b"\xc0\x0c")]
+    for t, rd in series:
+        for rl in list(range(0, len(rd) + 4)) + [0xFFFF]:
+            for tail in (b"", b"\0" * 8):
+                b = struct.pack(">HHHHHH", 0x6161, 0x8180, 1, 1, 0, 0) + q
+                b += b"\xc0\x0c" + struct.pack(">HHIH", t, 1, 30, rl) + rd + tail
+                out.append(b)
+    return out
+
+
+def opt_len_packets(thorough=False):
+    """Queries with an OPT record whose (first or second) option declares a length at the top of the 16-bit range."""
+    out = []
+    q = wire_name([b"a"]) + struct.pack(">HH", 1, 1)
+    lens = [65531, 65532, 65533, 65534, 65535] + ([65527, 65528, 65529, 65530] if thorough else [])
+    for ol in lens:
+        for lead in (b"", struct.pack(">HH", 10, 2) + b"zz"):
+            opts = lead + struct.pack(">HH", 12, ol)
+            for rl in (len(opts), len(opts) + 4, 0xFFFF, len(opts) + ol if len(opts) + ol <= 0xFFFF else 0xFFFF):
+                for fill in ((0, 4, 64) if not thorough else (0, 1, 2, 3, 4, 64, ol)):
+                    b = struct.pack(">HHHHHH", 0x6f6f, 0x0100, 1, 0, 0, 1) + q
+                    b += b"\0" + struct.pack(">HHIH", 41, 1232, 0, rl) + opts + b"\0" * fill
+                    out.append(b)
     return out
